@@ -691,8 +691,57 @@ class RecordingSolver:
         return x
 
 
+def c03_utility_methods(S, rng, n):
+    """the documented equivalences of the BoundaryFace utility methods, with scalar and face-wise array arguments, on
+    every side; arguments are never modified, so the same arrays can be handed to several faces"""
+    for t in range(n):
+        kind = KINDS[t % len(KINDS)]
+        mc = rand_mesh(rng, kind, nmax=3)
+        bc = BoundaryConditions(mc.m)
+        shapes = bc_face_shapes(mc)
+        try:
+            for k, name in enumerate(SIDES[:2 * mc.dim]):
+                shp = shapes[k]
+                f = getattr(bc, name)
+                def arr():
+                    return rand_vals(rng, shp, "pos") if rng.random() < 0.6 else float(rng.choice([0.5, 2.0, 3.0]))
+                how = rng.choice(["fixedValue", "fixedGradient", "newton", "newton-rev", "noflux"])
+                args = [arr(), arr(), arr()]
+                kept = [np.array(a, copy=True) for a in args]
+                if how == "fixedValue":
+                    f.fixedValue(args[0]); exp = (0.0, 1.0, kept[0])
+                elif how == "fixedGradient":
+                    sc = float(rng.choice([1.0, 2.5]))
+                    f.fixedGradient(args[0], sc); exp = (sc, 0.0, sc * kept[0])
+                elif how == "newton":
+                    f.newtonCooling(args[0], args[1], args[2]); exp = (kept[0], kept[1], kept[1] * kept[2])
+                elif how == "newton-rev":
+                    f.newtonCooling(args[0], args[1], args[2], reverse_direction=True); exp = (kept[0], -kept[1], -kept[1] * kept[2])
+                    # the same arrays handed to the opposite face afterwards, not reversed
+                    g = getattr(bc, SIDES[k ^ 1])
+                    if np.shape(args[1]) == () or np.shape(args[1]) == np.shape(g.b):
+                        g.newtonCooling(args[0], args[1], args[2])
+                        ok2 = all(np.allclose(np.broadcast_to(np.asarray(x, dtype=float), np.shape(y)), y, rtol=1e-14, atol=0)
+                                  for x, y in ((kept[0], g.a), (kept[1], g.b), (kept[1] * kept[2], g.c)))
+                        S.check(bool(ok2), f"C03:utility:newton-after-reversed:{kind}",
+                                "newtonCooling on a second face with the arrays already used for a reversed face does not give a = k, b = h, c = h*T_ext",
+                                {"kind": kind, "side": SIDES[k ^ 1]}, [np.asarray(g.b).ravel().tolist()[:4]], [np.asarray(kept[1]).ravel().tolist()[:4]])
+                else:
+                    f.fixedValue(args[0]); f.defaultNoFlux(); exp = (1.0, 0.0, 0.0)
+                got = (f.a, f.b, f.c)
+                ok = all(np.allclose(np.broadcast_to(np.asarray(e, dtype=float), np.shape(gv)), gv, rtol=1e-14, atol=0) for e, gv in zip(exp, got))
+                S.check(bool(ok), f"C03:utility:{how}:{kind}", f"BoundaryFace.{how} does not set the documented coefficients", {"kind": kind, "side": name, "how": how},
+                        [np.asarray(x).ravel().tolist()[:4] for x in got], [np.asarray(x).ravel().tolist()[:4] for x in exp])
+                same = all(np.array_equal(np.asarray(a), b) for a, b in zip(args, kept))
+                S.check(bool(same), f"C03:utility:{how}:argument-modified:{kind}", f"BoundaryFace.{how} modified an argument array", {"kind": kind, "side": name, "how": how}, None, None)
+            S.sig(kind, "utility")
+        except Exception as ex:
+            S.check(False, f"C03:utility:{kind}:exception", repr(ex), {"kind": kind}, repr(ex), "no exception")
+
+
 def search_c03(rng, n, S=None, kinds=None):
     S = S or Search("C03")
+    c03_utility_methods(S, rng, max(9, n // 8))
     for t in range(n):
         kind = (kinds or KINDS)[t % len(kinds or KINDS)]
         mc = rand_mesh(rng, kind, nmax=4)
@@ -704,6 +753,24 @@ def search_c03(rng, n, S=None, kinds=None):
             bc = make_bcs(mc, spec)
             phi = pf.CellVariable(mc.m, vals.copy(), bc)
             robin_check(S, mc, bc, np.asarray(phi._value), "construction", inp)
+            # reading the profile (the values reported at the boundary faces) must not change what the variable holds,
+            # and must give the same answer every time; on the boundary faces it is the face average of ghost and cell
+            held = np.array(phi._value, copy=True)
+            p1 = phi.plotprofile(); p2 = phi.plotprofile()
+            same_prof = all(np.array_equal(np.asarray(x), np.asarray(y), equal_nan=True) for x, y in zip(p1, p2))
+            S.check(bool(np.array_equal(np.asarray(phi._value), held, equal_nan=True) and same_prof), f"C03:profile-read-changes-state:{kind}",
+                    "plotprofile() changed the values held by the variable, or two successive reads differ", inp, None, None)
+            prof = np.asarray(p1[-1], dtype=float)
+            if prof.shape == held.shape:
+                for ax in range(mc.dim):
+                    for pos, gi, ci in ((0, 0, 1), (-1, -1, -2)):
+                        sl_p = [slice(1, -1)] * mc.dim; sl_p[ax] = pos
+                        sl_g = [slice(1, -1)] * mc.dim; sl_g[ax] = gi
+                        sl_c = [slice(1, -1)] * mc.dim; sl_c[ax] = ci
+                        face = 0.5 * (held[tuple(sl_g)] + held[tuple(sl_c)])
+                        okp = np.allclose(prof[tuple(sl_p)], face, rtol=1e-12, atol=1e-13, equal_nan=True)
+                        S.check(bool(okp), f"C03:profile-boundary-value:{kind}", "the boundary value reported by plotprofile() is not the face average of ghost and adjacent cell",
+                                {**inp, "axis": ax, "side": pos}, prof[tuple(sl_p)].ravel().tolist()[:6], face.ravel().tolist()[:6])
             # edit BC + apply_BCs
             side = rng.choice(SIDES[:2 * mc.dim])
             getattr(bc, side).c[:] = rng.choice([0.5, -1.0, 2.0])
@@ -718,6 +785,13 @@ def search_c03(rng, n, S=None, kinds=None):
             D = pf.FaceVariable(mc.m, 1.0)
             rec = RecordingSolver()
             dt = rng.choice([0.1, 1.0, 10.0])
+            # a boundary relation whose ghost coefficient b/2 +- a/h vanishes does not determine the ghost value (the model
+            # says `none`, the matrix is singular): nothing to check for the solve
+            from pyfvtool.boundary import boundaryConditionsTerm as _bct
+            Mb = csr_array(_bct(bc)[0])
+            dg = np.abs(Mb.diagonal()); rmax = np.asarray(abs(Mb).max(axis=1).todense()).ravel()
+            if np.any((rmax > 0) & (dg < 1e-9 * rmax)):
+                continue
             pf.solvePDE(phi, [pf.transientTerm(phi, dt, 1.0), -pf.diffusionTerm(D)], externalsolver=rec)
             if np.all(np.isfinite(np.asarray(phi._value))):
                 robin_check(S, mc, bc, np.asarray(phi._value), "solvePDE", inp)
@@ -944,6 +1018,13 @@ def search_c01(rng, n, S=None, kinds=None):
                 inp = case_of(mc, mode=mode, conv=conv, D=Darr, u=uarr, interior=x0, dt=dt, alpha=alpha, steps=steps, periodic_axes=per_axes)
                 V = np.asarray(mc.m.cellvolume, dtype=float)
                 I0 = float(phi.domainIntegral()); Ic0 = float(np.sum(vcons(mc) * np.asarray(phi.value)))
+                # the weights of the integral belong to the mesh: what a caller does with the array it got from `cellvolume`
+                # (here: normalising it in place) must not change the integral reported afterwards
+                w = mc.m.cellvolume
+                w /= w.sum()
+                I0b = float(phi.domainIntegral())
+                S.check(abs(I0b - I0) <= 1e-12 * max(abs(I0), 1e-300), f"C01:integral-weights-aliased:{kind}",
+                        "domainIntegral() changed after the caller modified the array returned by mesh.cellvolume", case_of(mc), I0b, I0)
                 with contextlib.redirect_stdout(io.StringIO()):
                     FL = pf.fluxLimiter("Koren")
                 for _ in range(steps):
